@@ -274,6 +274,14 @@ def rule_reset(R):
     R.floor("reset/who-forgets", n, 2, "shrinking calls on the pending-identifier set")
 
 
+def rule_fresh(R):
+    """the reset that forgets the pending inbound identifiers runs whenever the broker reports a fresh session -- on every
+    path, and before the handshake can fail for another reason (a reset that is skipped when a later CONNACK property is
+    rejected leaves identifiers of the dead session behind: a new PUBLISH reusing one is acknowledged but never delivered)"""
+    from .c05 import clause_fresh_reset
+    clause_fresh_reset(R, "fresh")
+
+
 def rule_faithful(R):
     f = R.f
     cm = roles.conn_methods(f)
@@ -436,4 +444,5 @@ def run(R):
     R.rule("rel", rule_rel)
     R.rule("offarena", rule_offarena)
     R.rule("reset", rule_reset)
+    R.rule("fresh", rule_fresh)
     R.rule("faithful", rule_faithful)
